@@ -103,6 +103,9 @@ class StmtMixin:
                 pl = self.try_place(st.copy(), s.value)
             except OutsideSubset:
                 pl = None
+            if isinstance(s.value, ast.Name) and isinstance(st.env.get(s.value.id), SV) \
+                    and isinstance(st.env[s.value.id].ty, TRef):
+                pl = None         # an object (possibly dict-derived) is returned, not a container value
             if pl is not None and len(pl) == 1 and isinstance(pl[0][1], Place):
                 root = pl[0][1].root
                 while root[0] == 'local' and isinstance(st.env.get(root[1]), Place):
@@ -239,6 +242,9 @@ class StmtMixin:
                 cur = st.env[e.id]
                 if isinstance(cur, Place):
                     return [(st, cur)]
+                dp = self.dict_place(cur) if isinstance(cur, SV) else None
+                if dp is not None:
+                    return [(st, dp)]
                 if isinstance(cur, SV) and self.is_container_type(cur.ty):
                     return [(st, Place(('local', e.id)))]
                 return None
@@ -324,6 +330,7 @@ class StmtMixin:
                     raise OutsideSubset('attribute store on ' + str(base.ty))
                 src_root = getattr(node, '_pyvc_rhs_field_root', None)
                 if src_root is not None and self.spec_depth == 0 and not self.in_contract \
+                        and getattr(self.contract, 'no_alias_stores', False) \
                         and isinstance(v, SV) and self.is_container_type(v.ty):
                     # `o.f = p.g` with g a list / dict field: in Python both objects now hold the SAME
                     # container (containers have value semantics here, so this must not happen
@@ -415,6 +422,9 @@ class StmtMixin:
             cont = self.read_place(st, loc)
             return self.narrow_place(st, loc, cont, node, want)
         loc = self.need_value(loc)
+        dp = self.dict_place(loc)
+        if dp is not None:
+            return dp, self.read_place(st, dp)
         if isinstance(loc.ty, TRef) and (loc.ty.cls.startswith('list:') or loc.ty.cls.startswith('dict:')):
             dcls, _ = self.classes.field(loc.ty.cls, 'items')
             pl = Place(('field', loc.t, (dcls, 'items')))
@@ -1004,7 +1014,9 @@ class StmtMixin:
             getm = lambda s, base=base: self.container_of(s, base, node, 'iteration')[1]
         else:
             base = self.need_value(base)
-            if isinstance(base.ty, TRef) and base.ty.cls.startswith('dict:'):
+            if self.dict_place(base) is not None:
+                getm = lambda s, base=base: self.read_place(s, self.dict_place(base))
+            elif isinstance(base.ty, TRef) and base.ty.cls.startswith('dict:'):
                 getm = lambda s, base=base: self.read_field(s, base, base.ty.cls, 'items')
             elif isinstance(base.ty, TRef):
                 res = self.call_method(st, base, what, [], {}, node)
